@@ -30,6 +30,7 @@
 #include <set>
 #include <string>
 #include <unordered_map>
+#include <unordered_set>
 #include <vector>
 
 #include "common/vreport.h"
@@ -115,11 +116,21 @@ static inline void mod()
   gmods++;
   last_mod_step = steps;
 }
+// per-location write versions: "the same location re-read at the same program point with no
+// write to it in between" is what identifies a busy-wait iteration (a function of the
+// happens-before state only, see state hashing below)
+static std::unordered_map<uintptr_t, unsigned long> *wver;
+static inline void mod_at(const volatile void *a)
+{
+  mod();
+  if (wver)
+    (*wver)[(uintptr_t)a]++;
+}
 static inline void vw_flush()
 {
   if (vw_pending) {
     if (memcmp(vw_old, vw_pending, vw_size) != 0)
-      mod();
+      mod_at(vw_pending);
     vw_pending = nullptr;
   }
 }
@@ -341,6 +352,61 @@ static void clear_shadow(uintptr_t a, size_t n)
 }
 
 // =========================================================================================
+// happens-before state hashing (state caching in the sense of CHESS)
+//
+// Two schedule prefixes that order all *dependent* visible operations the same way leave the
+// program in the same state (threads are deterministic between visible operations and all
+// inter-thread communication goes through visible operations - the race detector checks the
+// latter).  The partial order is captured by dependency clocks: every visible operation of a
+// thread on an object joins the object's clock into the thread's clock, ticks, and stores the
+// result back (all operations on one object are treated as mutually dependent, which is
+// conservative: fewer prefixes are merged, never too many).  A thread's running hash folds
+// (operation, clock) pairs, so equal per-thread hashes mean equal partial orders.
+// =========================================================================================
+static VC DC[MAXT];
+static uint64_t TH[MAXT];
+static std::unordered_map<uintptr_t, VC> *depobj;
+static std::vector<uint64_t> shash;  // state hash at each recorded choice point
+
+static inline uint64_t mix64(uint64_t h, uint64_t v)
+{
+  h ^= v + 0x9e3779b97f4a7c15ull + (h << 6) + (h >> 2);
+  h *= 0xff51afd7ed558ccdull;
+  return h ^ (h >> 33);
+}
+static void dep_update(const char *op, uintptr_t addr)
+{
+  VC &d = DC[me];
+  if (addr) {
+    VC &o = (*depobj)[addr];
+    d.join(o);
+    d.c[me]++;
+    o = d;
+  } else
+    d.c[me]++;
+  uint64_t h = mix64(TH[me], vr::fnv(op, strlen(op)));
+  for (int i = 0; i < MAXT; i++)
+    h = mix64(h, d.c[i]);
+  TH[me] = h;
+}
+static uint64_t state_hash(const char *pending_op, int kind)
+{
+  uint64_t h = mix64(0x1234567ull + kind, (uint64_t)me);
+  h = mix64(h, vr::fnv(pending_op, strlen(pending_op)));
+  for (int t = 0; t < nthreads; t++) {
+    h = mix64(h, TH[t]);
+    h = mix64(h, (uint64_t)T[t].st);
+    // rank in the least-recently-run order (it decides the canonical choice)
+    int rank = 0;
+    for (int u = 0; u < nthreads; u++)
+      if (T[u].lastrun < T[t].lastrun || (T[u].lastrun == T[t].lastrun && u < t))
+        rank++;
+    h = mix64(h, (uint64_t)rank);
+  }
+  return h;
+}
+
+// =========================================================================================
 // scheduler
 // =========================================================================================
 static bool is_enabled(int t)
@@ -360,8 +426,10 @@ static bool is_enabled(int t)
 }
 
 // a generic recorded choice among n alternatives (n >= 2)
-static int choose(int n)
+static const char *pending_op_name = "";
+static int choose(int n, int kind = 0)
 {
+  shash.push_back(state_hash(pending_op_name, kind));
   int idx = 0;
   size_t k = choices.size();
   if (k < prefix.size()) {
@@ -457,6 +525,7 @@ static void schedule(const char *op, uintptr_t addr)
     if (has_me)
       en[n++] = me;
   }
+  pending_op_name = op;
   int idx = n > 1 ? choose(n) : 0;
   int nt = en[idx];
   T[nt].lastrun = steps;
@@ -470,8 +539,11 @@ static void schedule(const char *op, uintptr_t addr)
       take();
   }
   // logged when the thread actually proceeds with (op, addr)
-  if (T[me].st != DONE && steplog->size() < 200000)
-    steplog->push_back(StepRec{(unsigned char)me, op, addr});
+  if (T[me].st != DONE) {
+    dep_update(op, addr);
+    if (steplog->size() < 200000)
+      steplog->push_back(StepRec{(unsigned char)me, op, addr});
+  }
 }
 
 static inline void point(const char *op, const void *addr)
@@ -491,29 +563,35 @@ static void spin_yield(const char *op, const void *addr)
 }
 // An atomic/volatile load repeated at the same program point with no modification of shared
 // state in between is a busy-wait iteration: treat it as a yield.
-static __thread std::map<void *, unsigned long> *pcmap;
+struct PcRec
+{
+  uintptr_t addr;
+  unsigned long ver1;  // write version of addr at the last read here, +1
+};
+static __thread std::map<void *, PcRec> *pcmap;
 static void point_read(const char *op, const void *addr, void *pc)
 {
   if (!(active && me >= 0) || in_rt)
     return;
+  bool spin;
   {
     RtGuard g;
     vw_flush();
     if (!pcmap)
-      pcmap = new std::map<void *, unsigned long>();
+      pcmap = new std::map<void *, PcRec>();
+    unsigned long cur = 0;
+    auto it = wver->find((uintptr_t)addr);
+    if (it != wver->end())
+      cur = it->second;
+    PcRec &e = (*pcmap)[pc];
+    spin = e.addr == (uintptr_t)addr && e.ver1 == cur + 1;
+    e.addr = (uintptr_t)addr;
+    e.ver1 = cur + 1;
   }
-  unsigned long *e;
-  {
-    RtGuard g;
-    e = &(*pcmap)[pc];
-  }
-  if (*e == gmods) {
+  if (spin)
     spin_yield(op, addr);
-    *e = gmods;
-    return;
-  }
-  *e = gmods;
-  schedule(op, (uintptr_t)addr);
+  else
+    schedule(op, (uintptr_t)addr);
 }
 
 extern "C" void rkcommon_verif_spin_hint()
@@ -623,8 +701,10 @@ void __tsan_vptr_update(void **a, void *)
   {                                                                            \
     point("volatile-store", a);                                                \
     HB_STORE(a);                                                               \
-    if (active && me >= 0 && !in_rt)                                           \
-      mod();                                                                   \
+    if (active && me >= 0 && !in_rt) {                                         \
+      RtGuard mg;                                                              \
+      mod_at(a);                                                               \
+    }                                                                          \
   }
 RW(1)
 RW(2)
@@ -641,8 +721,10 @@ void __tsan_write_range(void *a, long n)
 }
 #define MODIF()                          \
   do {                                   \
-    if (active && me >= 0 && !in_rt)     \
-      mod();                             \
+    if (active && me >= 0 && !in_rt) {   \
+      RtGuard mg;                        \
+      mod_at((const volatile void *)a);  \
+    }                                    \
   } while (0)
 #define AT(bits, TY)                                                                                   \
   TY __tsan_atomic##bits##_load(const volatile TY *a, int mo)                                             \
@@ -801,6 +883,8 @@ int pthread_create(pthread_t *t, const pthread_attr_t *a, void *(*f)(void *), vo
     Cth[id].join(Cth[me]);
     Cth[me].c[me]++;
   }
+  DC[id] = DC[me];
+  TH[id] = mix64(TH[me], 0x7468726561640000ull + (uint64_t)id);
   int rc;
   {
     RtGuard g;
@@ -835,6 +919,10 @@ int pthread_join(pthread_t t, void **r)
   if (det_on && id >= 0) {
     RtGuard g;
     Cth[me].join(Cth[id]);
+  }
+  if (id >= 0) {
+    DC[me].join(DC[id]);
+    TH[me] = mix64(TH[me], TH[id]);
   }
   mod();
   RtGuard g;
@@ -957,7 +1045,8 @@ static void cond_wake(pthread_cond_t *c, bool all)
       T[ws[i]].st = RUNNABLE;
     return;
   }
-  int idx = nw > 1 ? choose(nw) : 0;  // which waiter a notify_one wakes is a choice
+  pending_op_name = "notify-one";
+  int idx = nw > 1 ? choose(nw, 1) : 0;  // which waiter a notify_one wakes is a choice
   T[ws[idx]].st = RUNNABLE;
 }
 int pthread_cond_signal(pthread_cond_t *c)
@@ -1266,6 +1355,15 @@ static void finish_execution(int code, const char *sig, const char *detail)
   o += std::string("detail=") + vr::clean(detail) + "\n";
   put_list(o, "choices", choices);
   put_list(o, "nalt", nalt);
+  {
+    o += "hashes=";
+    char hb[24];
+    for (uint64_t h : shash) {
+      snprintf(hb, sizeof hb, "%llx,", (unsigned long long)h);
+      o += hb;
+    }
+    o += "\n";
+  }
   o += "events=" + vr::clean(events ? *events : "") + "\n";
   o += "steps=" + std::to_string(steps) + "\n";
   o += "yields=" + std::to_string(nyields) + "\n";
@@ -1313,6 +1411,7 @@ static void crash_handler(int signo)
 // =========================================================================================
 struct Res
 {
+  std::vector<uint64_t> hashes;
   int code = -1;
   std::string sig, detail, events, trace;
   std::vector<unsigned char> choices, nalt;
@@ -1366,6 +1465,17 @@ static Res parse_res(const std::string &buf, int status)
   r.detail = get_field(buf, "detail");
   r.choices = parse_list(get_field(buf, "choices"));
   r.nalt = parse_list(get_field(buf, "nalt"));
+  {
+    std::string hs = get_field(buf, "hashes");
+    size_t p0 = 0;
+    while (p0 < hs.size()) {
+      size_t q = hs.find(',', p0);
+      if (q == std::string::npos)
+        break;
+      r.hashes.push_back(strtoull(hs.c_str() + p0, nullptr, 16));
+      p0 = q + 1;
+    }
+  }
   r.events = get_field(buf, "events");
   r.steps = atol(get_field(buf, "steps").c_str());
   r.yields = atol(get_field(buf, "yields").c_str());
@@ -1399,6 +1509,8 @@ static std::string run_child(McScenario *sc, const std::vector<unsigned char> &p
     max_steps = sc->max_steps;
     cur_scenario_name = sc->name;
     mutex_owner = new std::map<void *, int>();
+    wver = new std::unordered_map<uintptr_t, unsigned long>();
+    depobj = new std::unordered_map<uintptr_t, VC>();
     sem_val = new std::map<void *, int>();
     steplog = new std::vector<StepRec>();
     events = new std::string();
@@ -1599,9 +1711,12 @@ struct ScenState
   int completed_bound = -1;
   std::set<uint64_t> outcomes;
   std::map<std::string, int> confirmed;
+  std::unordered_set<uint64_t> seen_states;  // happens-before states already expanded (at this or a lower deviation level)
+  long pruned = 0;
 };
 
 static long total_exec = 0;
+static bool use_state_cache = true;
 
 // process one level (all executions with exactly `level` deviations) of one scenario
 static void run_level(ScenState &S)
@@ -1659,6 +1774,14 @@ static void run_level(ScenState &S)
     // nothing but cost
     if (S.level < S.bound && r.code != 5 && (r.code == 0 || S.failing <= 40)) {
       for (size_t i = pre.size(); i < r.choices.size(); i++) {
+        // state caching: if the happens-before state in front of this choice point has been
+        // expanded before (by an execution with the same or fewer deviations, which therefore
+        // had at least the same remaining budget and continued canonically from it exactly as
+        // this execution does), everything reachable from here is already scheduled
+        if (use_state_cache && i < r.hashes.size() && !S.seen_states.insert(r.hashes[i]).second) {
+          S.pruned++;
+          break;
+        }
         for (int alt = 1; alt < (int)r.nalt[i]; alt++) {
           if (next.size() >= FRONTIER_CAP) {
             aborted = true;
@@ -1733,6 +1856,8 @@ int main(int argc, char **argv)
       bound_override = atoi(argv[++i]);
     else if (a == "--workers" && i + 1 < argc)
       nworkers = atoi(argv[++i]);
+    else if (a == "--no-state-cache")
+      use_state_cache = false;
     else if (a == "--exec-timeout" && i + 1 < argc)
       exec_timeout_s = atoi(argv[++i]);
   }
@@ -1825,7 +1950,10 @@ int main(int argc, char **argv)
   }
   long maxb = 0;
   for (auto &s : st) {
-    vr::stat("states", s.points + s.executions);  // schedule-tree nodes visited: choice points + leaves
+    // states: distinct happens-before states at choice points (state cache) or, without the cache, schedule-tree nodes
+    vr::stat("states", use_state_cache ? (long)s.seen_states.size() + s.executions : s.points + s.executions);
+    vr::stat("schedule_tree_nodes", s.points + s.executions);
+    vr::stat("subtrees_pruned_by_state_cache", s.pruned);
     vr::stat("transitions", s.steps);
     vr::stat("traces", s.executions);
     vr::stat("evaluations", s.executions);
